@@ -5,6 +5,7 @@ package vc
 import (
 	"fmt"
 	"go/constant"
+	"os"
 	"go/types"
 	"math/big"
 	"strings"
@@ -13,6 +14,7 @@ import (
 )
 
 type sval struct {
+	bound bool // quantifier-bound or predicate-parameter binding: takes priority over program locals
 	t    string
 	typ  types.Type // Go type, nil when purely mathematical
 	kind string     // "int" "bool" "real" "nil" "val" (typed value) "loc" (t is a ref to a struct of type typ)
@@ -33,11 +35,15 @@ type SpecCtx struct {
 	depth  int
 	oldAlloc string
 	neg    bool // true when the formula being translated is in assumed (negative) position
+	callerEntry *State // set while checking a callee's precondition at a call site
 }
 
 type specErr struct{ msg string }
 
 func (cx *SpecCtx) fail(f string, a ...interface{}) {
+	if os.Getenv("DVC_DEBUG") != "" {
+		panic(fmt.Sprintf(f, a...))
+	}
 	panic(specErr{fmt.Sprintf(f, a...)})
 }
 
@@ -344,6 +350,9 @@ func (cx *SpecCtx) eval(e Expr) sval {
 	case *EStr:
 		return sval{t: g.sc.strConst(x.Val), typ: types.Typ[types.String], kind: "val"}
 	case *EIdent:
+		if v, ok := cx.vars[x.Name]; ok && v.bound {
+			return norm(v)
+		}
 		if cx.locals {
 			// inside the function body (loop invariants, hints) a name denotes the current value of the
 			// variable, also for parameters (which are mutable); old(x) gives a parameter's entry value
@@ -590,7 +599,7 @@ func (cx *SpecCtx) evalQuant(x *EQuant) sval {
 			}
 		}
 		binds = append(binds, fmt.Sprintf("(%s %s)", name, sort))
-		n.vars[qv.Name] = sval{t: name, typ: t, kind: kind}
+		n.vars[qv.Name] = sval{t: name, typ: t, kind: kind, bound: true}
 		_ = ranges
 	}
 	cx.g.sc.Quant++
@@ -650,6 +659,23 @@ func (cx *SpecCtx) structBase(v sval) (string, types.Type, bool) {
 
 func (cx *SpecCtx) evalSel(x *ESel) sval {
 	g := cx.g
+	// pkg.Var : a package-level variable of an imported package
+	if id, ok := x.X.(*EIdent); ok {
+		if _, isVar := cx.vars[id.Name]; !isVar && len(g.cellName[id.Name]) == 0 {
+			for _, p := range g.env.allPkgs {
+				if p.Name() == id.Name {
+					if o, ok := p.Scope().Lookup(x.Field).(*types.Var); ok {
+						key := "G:" + p.Path() + "." + x.Field
+						if _, ok := g.cellSort[key]; !ok {
+							g.cellSort[key] = g.sc.sortOf(o.Type())
+							g.cellType[key] = o.Type()
+						}
+						return norm(sval{t: g.get(cx.st, key), typ: o.Type(), kind: "val"})
+					}
+				}
+			}
+		}
+	}
 	base := cx.eval(x.X)
 	// pseudo-fields of slices
 	if base.typ != nil {
@@ -879,6 +905,10 @@ func (cx *SpecCtx) evalCall(x *ECall) sval {
 	case "cap":
 		v := arg(0)
 		return sval{t: fmt.Sprintf("(s-cap %s)", v.t), kind: "int"}
+	case "strat": // strat(s, i): i-th byte of string s
+		sv := arg(0)
+		g.sc.declare("strat", "(declare-fun strat (Str Int) Int)")
+		return sval{t: fmt.Sprintf("(strat %s %s)", sv.t, cx.intTerm(x.Args[1])), kind: "int"}
 	case "addr": // addr(x): the reference of a struct location (e.g. an embedded struct), comparable with pointers
 		v := arg(0)
 		if v.kind == "loc" {
@@ -930,6 +960,9 @@ func (cx *SpecCtx) evalCall(x *ECall) sval {
 			r.t = fmt.Sprintf("(%s %s %s)", f, r.t, c.t)
 		}
 		return r
+	case "tdiv", "tmod": // Go's truncated integer division / remainder
+		a, b := arg(0), arg(1)
+		return sval{t: fmt.Sprintf("(%s %s %s)", x.Fun, a.t, b.t), kind: "int"}
 	case "abs":
 		a := arg(0)
 		if a.kind == "real" {
@@ -953,6 +986,18 @@ func (cx *SpecCtx) evalCall(x *ECall) sval {
 		}
 		dom, _ := g.sc.mapComps(mt)
 		return sval{t: fmt.Sprintf("(select (select %s %s) %s)", g.get(cx.st, dom), m.t, k.t), kind: "bool"}
+	case "callerfresh": // at a call site: the argument was allocated by the calling function (it owns it exclusively); inside the callee: no information
+		v := arg(0)
+		if cx.callerEntry == nil {
+			return sval{t: "true", kind: "bool"}
+		}
+		t := v.t
+		if v.typ != nil {
+			if _, ok := v.typ.Underlying().(*types.Slice); ok {
+				t = fmt.Sprintf("(s-arr %s)", v.t)
+			}
+		}
+		return sval{t: fmt.Sprintf("(>= %s %s)", t, g.get(cx.callerEntry, "alloc")), kind: "bool"}
 	case "fresh": // allocated during this call/function
 		v := arg(0)
 		oa := g.get(cx.old, "alloc")
